@@ -23,6 +23,7 @@ import (
 	"github.com/ansible/receptor/pkg/netceptor"
 	"github.com/ansible/receptor/pkg/randstr"
 	"github.com/ansible/receptor/pkg/utils"
+	"github.com/ansible/receptor/pkg/verifhook"
 	"github.com/golang-jwt/jwt/v4"
 )
 
@@ -168,6 +169,7 @@ func (w *Workceptor) generateUnitID(lock bool) (string, error) {
 			if err == nil {
 				continue
 			}
+			verifhook.At("alloc.before_mkdir", ident)
 
 			return ident, os.MkdirAll(unitdir, 0o700)
 		}
@@ -264,6 +266,7 @@ func (w *Workceptor) AllocateUnit(workTypeName string, params map[string]string)
 	if err != nil {
 		return nil, err
 	}
+	verifhook.At("alloc.saved", ident)
 	w.activeUnits[ident] = worker
 
 	return worker, nil
